@@ -273,6 +273,12 @@ func regexSoup(r *rand.Rand) string {
 
 // the known defect inputs of DESIGN §9 and of this builder's analysis: always run
 var c08Seeds = []string{
+	// counts far beyond anything that may be unrolled or reserved, on the constructs that are NOT unrolled (named
+	// loops, maxima, amounts): accepted at once on the unchanged tree
+	"find all at least 1000000000000000 'a' named n", "find all between 20000000000000 and 20000000000001 'a' named \"s\"",
+	"find all exactly 3000000000000000 digit named k", "find all at most 1000000000000000 'a'", "find all between 0 and 4000000000000000000 any fewest",
+	"find all at most 9000000000000000000 'a' named m", "find skip 4000000000000000000 take 4000000000000000000 'a'", "find last 2000000000000000 'a'",
+	"find top 9000000000000000000 'a'", "replace last 30000000000 'a' with 'b'", "find all @/a{0,900000000000000}/", "find all @/(?:ab){0,20000000000000}?c/",
 	"set f to transform return end", "set f to transform return 1 + end", "set f to transform return (1 end",
 	"set f to transform return 1 )", "set f to transform if true ) ", "set f to transform return not end",
 	"set f to transform set x to end", "set f to transform if then end", "set f to transform debug end",
